@@ -170,6 +170,15 @@ class MultiOperator(Operator):
         if duration is None:  # use sum of durations
             self.duration = total
 
+    def __call__(self, sm, *, inplace=False):
+        """apply operators in turn (each one handles the partial derivatives)"""
+        if not self.operators:
+            return super().__call__(sm, inplace=inplace)
+        for op in self.operators:
+            sm = op(sm, inplace=inplace)
+            inplace = True
+        return sm
+
     def _apply(self, sm):
         """apply sequence of operators to state matrix"""
         for op in self.operators:
